@@ -653,6 +653,50 @@ class WrittenFile(Spec):
                 'args': dict(self.arg_names), 'kwargs': dict(self.const_kwargs)}
 
 
+class Table(Spec):
+    """a worksheet: header strings and rows of cell specs (None = empty
+    cell).  Symbolically the DataFrame pandas would return (assumed contract);
+    natively a real .xlsx file (header row, one skipped comment row, data)."""
+
+    def __init__(self, headers, rows, comment_row=True):
+        self.headers = list(headers)
+        self.rows = rows
+        self.comment_row = comment_row
+
+    def _nm(self, name, i, j):
+        return '%s.r%d.c%d' % (name, i, j)
+
+    def sym(self, B, name):
+        from .models import DataFrameV, NULL
+        rows = []
+        for i, r in enumerate(self.rows):
+            cells = []
+            for j, c in enumerate(r):
+                cells.append(NULL if c is None else c.sym(B, self._nm(name, i, j)))
+            rows.append(cells)
+        return DataFrameV(self.headers, rows)
+
+    def sample(self, rng, name, asg):
+        for i, r in enumerate(self.rows):
+            for j, c in enumerate(r):
+                if c is not None:
+                    c.sample(rng, self._nm(name, i, j), asg)
+
+    def desc(self, name, asg):
+        return {'k': 'excel_table', 'headers': self.headers,
+                'comment_row': self.comment_row,
+                'rows': [[None if c is None else c.desc(self._nm(name, i, j), asg)
+                          for j, c in enumerate(r)] for i, r in enumerate(self.rows)]}
+
+    def leaf_names(self, name):
+        out = []
+        for i, r in enumerate(self.rows):
+            for j, c in enumerate(r):
+                if c is not None:
+                    out.extend(c.leaf_names(self._nm(name, i, j)))
+        return out
+
+
 class ClassRef(Spec):
     def __init__(self, cls):
         self.cls = cls
